@@ -3,6 +3,7 @@
 package fcm
 
 import (
+	"encoding/json"
 	"testing"
 
 	"github.com/tinode/chat/server/push"
@@ -12,12 +13,23 @@ import (
 // string (payloadToData). Output: the preview bytes, or "err".
 func TestVerifStream(t *testing.T) {
 	verifRun(t, func(ws []string) (string, bool) {
-		if ws[0] != "push.preview" || len(ws) != 2 {
+		if (ws[0] != "push.preview" && ws[0] != "push.drafty") || len(ws) != 2 {
 			return "", false
 		}
 		b, ok := vHexDec(ws[1])
 		if !ok {
 			return "", false
+		}
+		if ws[0] == "push.drafty" {
+			// push.drafty <json bytes>: a message whose content is a formatted (Drafty) document, as any client may send it: the
+			// preview is built by drafty.Preview. Whatever the document says, building it must not bring the process down
+			// (a panic is reported by the caller); what the preview is, is not compared.
+			var doc any
+			if err := json.Unmarshal(b, &doc); err != nil {
+				return "notjson", true
+			}
+			payloadToData(&push.Payload{What: push.ActMsg, Topic: "grpX", From: "usrY", SeqId: 1, Content: doc})
+			return "ok", true
 		}
 		data, err := payloadToData(&push.Payload{What: push.ActMsg, Topic: "grpX", From: "usrY", SeqId: 1, Content: string(b)})
 		if err != nil {
